@@ -231,6 +231,64 @@ fn exec_site_inner(input: &Value) -> (Value, Value) {
     (input.clone(), imp)
 }
 
+/// op `shape` (C10): the same type at the parameter and field sites in both output modes, plus the
+/// interface-type rendering of the Zod visitor
+pub fn exec_shape(input: &Value) -> (Value, Value) {
+    let mut imp = serde_json::Map::new();
+    for (site, mode) in [("param", "ts"), ("param", "zod"), ("field", "ts"), ("field", "zod")] {
+        let mut i2 = input.clone();
+        i2["site"] = json!(site);
+        i2["mode"] = json!(mode);
+        let (_, r) = exec_site_inner(&i2);
+        if let Some(p) = r.get("panic") {
+            return (input.clone(), json!({"panic": p}));
+        }
+        imp.insert(format!("{}_{}", mode, site), r.get("rendered").cloned().unwrap_or(Value::Null));
+        if site == "field" && mode == "zod" {
+            imp.insert("ts".into(), r.get("ts").cloned().unwrap_or(Value::Null));
+        }
+    }
+    let iface = guarded(|| {
+        let r = match RTy::from_json(&input["rty"]) {
+            Some(r) => r,
+            None => return json!(null),
+        };
+        let cfg = config_with(&input["mappings"]);
+        let zv = ZodVisitor::with_config(&cfg);
+        let st = TypeResolver::new().parse_type_structure(&r.render());
+        json!(zv.visit_type_for_interface(&st))
+    });
+    imp.insert("zod_iface".into(), iface);
+    (input.clone(), Value::Object(imp))
+}
+
+/// group `shapes` (C10)
+pub fn run_shapes(out: &mut Out, tier: &str, rng: &mut Rng) {
+    let (d, cap) = if tier == "thorough" { (3, 40) } else { (2, 12) };
+    for r in rty::enumerate(d, &rty::leaves(false), cap) {
+        out.case("shape", json!({"rty": r.to_json(), "mappings": {}}), json!({"gen": "enum", "depth": r.depth()}));
+    }
+    for r in rty::enumerate(1, &rty::leaves(true), 6) {
+        out.case("shape", json!({"rty": r.to_json(), "mappings": {}}), json!({"gen": "prims"}));
+    }
+    let tables = [
+        json!({"PathBuf": "string", "Timestamp": "number"}),
+        json!({"Uuid": "string", "Timestamp": "Date", "Flag": "boolean"}),
+    ];
+    let n = if tier == "thorough" { 30000 } else { 2500 };
+    for i in 0..n {
+        let depth = 1 + rng.below(6);
+        if i % 3 == 0 {
+            let r = rty::random_named(rng, depth.min(4), &["PathBuf", "Uuid", "User", "Mode", "Timestamp", "Flag"]);
+            let t = &tables[rng.below(2)];
+            out.case("shape", json!({"rty": r.to_json(), "mappings": t}), json!({"gen": "maprand", "depth": r.depth()}));
+        } else {
+            let r = rty::random(rng, depth);
+            out.case("shape", json!({"rty": r.to_json(), "mappings": {}}), json!({"gen": "rand", "depth": r.depth()}));
+        }
+    }
+}
+
 const SITES: &[&str] = &["param", "ret", "field", "chan", "event"];
 
 pub fn run(out: &mut Out, tier: &str, rng: &mut Rng) {
